@@ -1,12 +1,12 @@
 let () =
   try while true do
     let line = input_line stdin in
-    Fpmodel.toks := List.filter (fun s -> s <> "") (String.split_on_char ' ' line);
-    (match !Fpmodel.toks with
+    Fpbase.toks := List.filter (fun s -> s <> "") (String.split_on_char ' ' line);
+    (match !Fpbase.toks with
      | [] -> print_endline "EMPTY"
      | cmd :: rest ->
-       Fpmodel.toks := rest;
-       (match List.assoc_opt cmd !Fpmodel.handlers with
+       Fpbase.toks := rest;
+       (match List.assoc_opt cmd !Fpbase.handlers with
         | Some f -> (try f () with Failure m -> print_endline ("ERROR " ^ m) | Not_found -> print_endline "ERROR not_found" | Stack_overflow -> print_endline "ERROR stack_overflow")
         | None -> print_endline ("ERROR unknown command " ^ cmd)));
     flush stdout
